@@ -18,7 +18,7 @@ META = {
     'design_ref': 'DESIGN.md section 4 / C03',
     'note': ('Trusted: Coq kernel + vm_compute; translator tools/gen_limits.py; harness h_filter (public API only, no hook). '
              'Modelled, not verified: BTreeSet::range / DashMap lookups as list filters and association lookups; keys as Z '
-             '(Text keys through an order-preserving encoding); the candidate list of a search (BM25/HNSW/RRF) is an input of the model, taken from the real index.'),
+             '(Text keys through an order-preserving encoding); the candidate list of a search (BM25/HNSW/RRF) is an input of the model, rebuilt from the real indexes and checked against the unfiltered search.'),
     'technique': 'Coq proof (nested induction over filter / range-query trees, canonical sorted lists) + translator-generated '
                  'facts + differential model/impl run with a set-algebra oracle',
 }
@@ -35,7 +35,9 @@ def run(ck):
                '4 (quick) / 6 (thorough) over Eq/Gt/Ge/Lt/Le/Between (incl. inverted)/Include (incl. duplicates)/And/Or/Not '
                'at both levels, plus And[f] / Or[f] / Not(Not f) re-shapings; limits None, 0, 1, 2, n+1, a cutting limit, '
                'MAX, MAX+1 and every limit 0..n+1 for collections of <= 8 documents; query_ids, query_last_ids, query_all_ids, search_ids '
-               '(filter only and over BM25 candidates); an error stream (unknown index, unconvertible keys, alone and inside And/Or/Not) '
+               '(filter only; text over two BM25 indexes, vector over an HNSW index, and hybrid, with limits 1..3 on collections of '
+               '60..300 documents so that the fused candidate list exceeds top_k = 10*limit, under filters of every top-level shape '
+               'that keep most documents); an error stream (unknown index, unconvertible keys, alone and inside And/Or/Not) '
                'and a budget stream at and one past each MAX_FILTER_* / include bound. '
                'non-trivial = a distinct (collection, filter, entry, limit) whose limit is smaller than the match set')
     # only Gen_Limits concerns this property: regenerate exactly that file (a lost anchor of another
@@ -59,15 +61,15 @@ def run(ck):
               'keys are modelled as integers; Text keys reach the model through an order-preserving encoding',
               'errors are modelled as the first error in evaluation order (eval_err) beside the value function (eval); '
               'a leaf with a key the index cannot convert is the model constructor FFieldBad',
-              'the candidate list of a search is the real BM25 index\'s answer, handed to the model as an input')
+              'the candidate list of a search is rebuilt from the real indexes\' own answers (BM25 x2, HNSW) fused by the public RRF reranker and handed to the model as an input; it is checked against the unfiltered search')
     binary = ck.cargo('h_filter')
     if not binary:
         ck.finish()
     out = ck.work + '/c03.jsonl'
     if quick:
-        args = ['--colls', '30', '--maxdocs', '40', '--filters', '8', '--depth', '4', '--big', '1']
+        args = ['--colls', '30', '--maxdocs', '40', '--filters', '8', '--depth', '4', '--big', '1', '--hybrid', '4']
     else:
-        args = ['--colls', '300', '--maxdocs', '200', '--filters', '16', '--depth', '6', '--big', '2']
+        args = ['--colls', '300', '--maxdocs', '200', '--filters', '16', '--depth', '6', '--big', '2', '--hybrid', '30']
     rc, text = ck.run_harness(binary, ['--out', out] + args, timeout=1500)
     if not ck.ob('harness h_filter ran', rc == 0 and os.path.exists(out), 'correspondence', text[-2000:]):
         ck.finish()
@@ -77,7 +79,7 @@ def run(ck):
     ck.count(summary['evaluations'])
     ck.cov['input_distribution'] = {k: summary[k] for k in (
         'collections', 'collection_sizes', 'documents', 'top_level_shapes', 'node_kinds', 'entry_points', 'limits',
-        'outcomes', 'streams', 'cutting_evaluations', 'collections_with_key_order_not_id_order', 'max_search_limit')}
+        'outcomes', 'streams', 'searches', 'cutting_evaluations', 'collections_with_key_order_not_id_order', 'max_search_limit')}
     ck.cov['fraction_limit_cuts_match_set'] = round(summary['cutting_evaluations'] / max(1, summary['evaluations']), 3)
 
     # direct oracle on the implementation: the set-algebra reading over the harness's own documents,
@@ -95,6 +97,12 @@ def run(ck):
     ck.ob('no query (accepted, rejected or failing) changed the ids or any index of its collection',
           summary['collections_whose_state_changed_during_queries'] == 0, 'correspondence',
           '%d collections changed' % summary['collections_whose_state_changed_during_queries'])
+    ck.ob('the candidate list handed to the model and the oracle is the search stage\'s own (per-index top_k answers fused by '
+          'the default RRF reranker): the unfiltered search_ids result is its head in every one of %d searches; %d of them '
+          'have a candidate list longer than top_k (hybrid text + vector over two BM25 indexes and one HNSW index)'
+          % (summary['searches']['with_a_search_clause'], summary['searches']['candidate_list_longer_than_top_k']),
+          not summary['candidate_problems'] and summary['searches']['candidate_list_longer_than_top_k'] > 0,
+          'correspondence', json.dumps(summary['candidate_problems'])[:1500])
     ck.ob('ids are uncorrelated with key order in the generated collections (%d of %d collections have an inversion)'
           % (summary['collections_with_key_order_not_id_order'], summary['collections']),
           summary['collections_with_key_order_not_id_order'] * 2 >= summary['collections'], 'correspondence', '')
@@ -116,9 +124,38 @@ def run(ck):
         # sample (the witness/budget collection, every collection larger than MAX_SEARCH_LIMIT, every third other)
         model_rows = [r for i, r in enumerate(model_rows) if r['witness'] or r['docs'] > 400 or i % 3 == 0]
         ck.cov['model_compared_collections'] = len(model_rows)
-    cases = [{'t': [r['case'], r['obs']]} for r in model_rows]
-    sizes = [len(json.dumps(c)) for c in cases]
-    nshard = 8 if quick else 16
+    # a collection larger than MAX_SEARCH_LIMIT is costly to evaluate in the model (quadratic list sorts per query):
+    # split its filter groups over several cases (same collection term) so that the shards stay balanced
+    def keep_for_model(e, ei):
+        # large collections: the model is compared on every unbounded / MAX-clamped entry and a third of the others
+        # (each model query there costs about a second); the direct oracle has judged them all
+        if e.get('c') == 'EAll':
+            return True
+        lim = e['a'][-1]
+        if lim is None or lim['some']['nat'] >= summary['max_search_limit']:
+            return True
+        return ei % 3 == 0
+    cases, weight, origin = [], [], []
+    sampled_out = 0
+    for ri, r in enumerate(model_rows):
+        coll_t, groups = r['case']['t']
+        if r['docs'] > 400:
+            ng, no = [], []
+            for g, o in zip(groups, r['obs']):
+                idx = [ei for ei, e in enumerate(g['t'][1]) if keep_for_model(e, ei)]
+                sampled_out += len(g['t'][1]) - len(idx)
+                ng.append({'t': [g['t'][0], [g['t'][1][ei] for ei in idx]]})
+                no.append([o[ei] for ei in idx])
+            groups, r = ng, dict(r, obs=no)
+        step = 1 if r['docs'] > 400 else max(1, len(groups))
+        for a in range(0, max(1, len(groups)), step):
+            c = {'t': [{'t': [coll_t, groups[a:a + step]]}, r['obs'][a:a + step]]}
+            cases.append(c)
+            weight.append(len(json.dumps(c)) * (12 if r['docs'] > 400 else 1))
+            origin.append((ri, a))
+    sizes = weight
+    ck.cov['model_entries_sampled_out_on_large_collections'] = sampled_out
+    nshard = 12 if quick else 16
     order = sorted(range(len(cases)), key=lambda i: -sizes[i])
     bins = [[] for _ in range(nshard)]
     load = [0] * nshard
@@ -157,7 +194,8 @@ def run(ck):
     bad = [i for i, v in enumerate(res) if v is not True]
     detail = ''
     if bad:
-        i = bad[0]
+        ri, goff = origin[bad[0]]
+        i = ri
         outp = ck.eval_term(IMPORTS, 'diff_case (%s, %s)' % (to_coq(model_rows[i]['case']), to_coq(model_rows[i]['obs'])))
         detail = 'collection %d: diff_case = %s' % (i, outp[-400:])
         m = re.search(r'\[\s*\(\s*(\d+)\s*,\s*(\d+)\s*\)', outp)
@@ -169,5 +207,5 @@ def run(ck):
             detail += '\nfilter: %s\nentry: %s\nobserved: %s\nmodel: %s' % (
                 json.dumps(g['t'][0])[:1200], json.dumps(g['t'][1][ei])[:300], json.dumps(model_rows[i]['obs'][gi][ei])[:600], mv[-600:])
     ck.ob('model = implementation on %d collections / %d queries incl. error kinds and budget rejections (wf_coll holds of every dump)'
-          % (len(cases), nq), not bad, 'correspondence', detail)
+          % (len(model_rows), nq - sampled_out), not bad, 'correspondence', detail)
     ck.finish()
